@@ -148,10 +148,26 @@ class VectorExpressionSum(Expression):
         return f"VectorExpressionSum(size={self.expression.size})"
 
 
+def _has_repeated_variables(vector: object) -> bool:
+    """True if a variable vector holds one variable more than once.
+
+    A view of a symmetric matrix can: ``S[::-1, :].diagonal()`` holds ``S[0,2]`` twice.
+    """
+    variables = getattr(vector, "_variables", None)
+    return variables is not None and len({id(v) for v in variables}) != len(variables)
+
+
 def _as_vector_operand(vector):  # type: ignore[no-untyped-def]
-    """``x ** k`` and ``f(x)`` are vectors too: reductions take them element by element."""
+    """Normalise the vector operand of a reduction.
+
+    ``x ** k`` and ``f(x)`` are vectors too and are taken element by element. So is
+    a variable vector that repeats a variable: the derivative shortcuts for variable
+    vectors assume one position per variable, the element-wise rules do not.
+    """
     if isinstance(vector, (ElementwisePower, ElementwiseUnary)):
         return vector._as_vector_expression()
+    if isinstance(vector, VectorVariable) and _has_repeated_variables(vector):
+        return VectorExpression(list(vector._variables))
     return vector
 
 
@@ -597,6 +613,8 @@ class ElementwisePower(_ElementwiseArithmetic, Expression):
 
         Returns VectorPowerSum for O(1) evaluation instead of nested BinaryOps.
         """
+        if _has_repeated_variables(self.vector):
+            return self._as_vector_expression().sum()  # type: ignore[return-value]
         return VectorPowerSum(self.vector, self.power)
 
     def __iter__(self) -> Iterator[Expression]:
@@ -746,6 +764,8 @@ class ElementwiseUnary(_ElementwiseArithmetic, Expression):
 
         Returns VectorUnarySum for O(1) evaluation.
         """
+        if _has_repeated_variables(self.vector):
+            return self._as_vector_expression().sum()  # type: ignore[return-value]
         return VectorUnarySum(self.vector, self.op)
 
     def __iter__(self) -> Iterator[Expression]:
@@ -1483,6 +1503,8 @@ class VectorVariable:
             >>> s.evaluate({"x[0]": 1, "x[1]": 2, "x[2]": 3})
             6.0
         """
+        if _has_repeated_variables(self):
+            return VectorExpression(list(self._variables)).sum()  # type: ignore[return-value]
         return VectorSum(self)
 
     def norm(self, ord: int = 2) -> L2Norm | L1Norm:
@@ -1832,7 +1854,7 @@ def vector_sum(vector: VectorVariable | VectorExpression) -> VectorSum | Express
         6.0
     """
     if isinstance(vector, VectorVariable):
-        return VectorSum(vector)
+        return vector.sum()
     elif isinstance(vector, VectorExpression):
         # Build sum expression from individual expressions
         if vector.size == 0:
